@@ -86,6 +86,8 @@ impl<T> BlockNode<T> {
         debug_assert!(id < BLOCK_SIZE);
         unsafe {
             let data = self.data.get_unchecked(id);
+            #[cfg(may_verif)]
+            let _slot = crate::verif::slot_write(data.value.get() as *const T, id, &v);
             data.value.get().write(MaybeUninit::new(v));
 
             std::sync::atomic::fence(Ordering::Release);
@@ -99,6 +101,8 @@ impl<T> BlockNode<T> {
         debug_assert!(id < BLOCK_SIZE);
         let data = unsafe { self.data.get_unchecked(id) };
         if data.ready.load(Ordering::Acquire) != 0 {
+            #[cfg(may_verif)]
+            let _slot = crate::verif::slot_read(data.value.get() as *const T, id);
             Some(unsafe { data.value.get().read().assume_init() })
         } else {
             None
@@ -112,6 +116,8 @@ impl<T> BlockNode<T> {
         while data.ready.load(Ordering::Acquire) == 0 {
             std::hint::spin_loop();
         }
+        #[cfg(may_verif)]
+        let _slot = crate::verif::slot_read(data.value.get() as *const T, id);
         unsafe { data.value.get().read().assume_init() }
     }
 
@@ -123,6 +129,8 @@ impl<T> BlockNode<T> {
         while data.ready.load(Ordering::Acquire) == 0 {
             std::hint::spin_loop();
         }
+        #[cfg(may_verif)]
+        let _slot = crate::verif::slot_read(data.value.get() as *const T, id);
         (*data.value.get()).assume_init_ref()
     }
 
